@@ -24,6 +24,7 @@ only one of the two builds must belong to a class that cannot change outcomes:
  M arm-agree     a cfg(not(feature)) arm (a statement only the base build has) assigns the constant the feature arm
                  evaluates to under the assumption.
  C colour detect  in every colour configuration Color::default() is Monochrome unless both streams are terminals (table; shared with C11).
+ F swaps are writes a mem::swap / replace / take inside a completion-family function may only touch the completion fields.
 Does not decide: nothing further beyond the soundness of the summaries (trusted: this analyser, rustc's MIR)."""
 import re
 from core import *
